@@ -203,6 +203,10 @@ MUTANTS = [
     ('c12-blockfreq-min', 'C12', R + 'nist_suite.py',
      "  if n < 100:\n    raise InsufficientDataError(\"Not enough input\")",
      "  if n < 99:\n    raise InsufficientDataError(\"Not enough input\")"),
+    # (F22 reverted)
+    ('c12-universal-blocksize', 'C12', R + 'nist_suite.py',
+     'block_size = max(size for (size, bound) in min_n.items() if bound <= n)',
+     'block_size = min(size for (size, bound) in min_n.items() if bound <= n)'),
     # C13
     ('c13-fail-le', 'C13', R + 'random_test_suite.py',
      'if pval < self.p_value_fail:', 'if pval <= self.p_value_fail:'),
